@@ -44,12 +44,16 @@ PROPS = {
     "C10": {"engines": [
         {"name": "views", "pkg": "speaker", "run": "^TestVerifC10Views$",
          "checks": {Q: 40000, T: 3200000}, "shards": {Q: 2, T: 16}},
+        {"name": "speaker", "pkg": "speaker", "run": "^TestVerifC10Spk$",
+         "checks": {Q: 6000, T: 800000}, "shards": {Q: 4, T: 16}},
     ]},
     "C12": {"engines": [
         {"name": "perturb", "pkg": "speaker", "run": "^TestVerifC12Perturb$",
          "checks": {Q: 20000, T: 1600000}, "shards": {Q: 2, T: 16}},
         {"name": "exhaustive-subsets", "pkg": "speaker", "run": "^TestVerifC12Exhaustive$", "rapid": False,
          "checks": {Q: 1, T: 1}, "shards": {Q: 1, T: 1}},
+        {"name": "speaker", "pkg": "speaker", "run": "^TestVerifC12Spk$",
+         "checks": {Q: 6000, T: 800000}, "shards": {Q: 4, T: 16}},
     ]},
     "C07": {"engines": [
         {"name": "controller", "pkg": "controller", "run": "^TestVerifC07Ctrl$",
